@@ -314,6 +314,7 @@ impl<K, V, A: Allocator> CaoHashMap<K, V, A> {
 
             let result = std::ptr::read(self.values.as_ptr().add(i));
             self.hashes_mut()[i] = 0;
+            self.count -= 1;
 
             // if the consecutive buckets are not empty, move them back, so lookups dont fail
             // and they aren't in their optimal position
@@ -329,10 +330,14 @@ impl<K, V, A: Allocator> CaoHashMap<K, V, A> {
                     self.capacity(),
                     "CaoHashMap::remove_with_hint",
                 );
-                // if the jth item is not in its optimal bucket, then move it back to the empty
-                // slot
-                if (self.hashes()[j] % self.capacity() as u64) != j as u64 {
+                // if the empty slot lies (cyclically) between the home bucket of the jth item and
+                // j, then move the item back to the empty slot, otherwise lookups would stop at
+                // the empty slot and miss it
+                let cap = self.capacity();
+                let home = (self.hashes()[j].wrapping_mul(2654435769) as usize) % cap;
+                if (j + cap - home) % cap >= (j + cap - i) % cap {
                     self.hashes_mut()[i] = self.hashes()[j];
+                    self.hashes_mut()[j] = 0;
                     std::ptr::swap(self.keys.as_ptr().add(i), self.keys.as_ptr().add(j));
                     std::ptr::swap(self.values.as_ptr().add(i), self.values.as_ptr().add(j));
                     i = j;
